@@ -51,6 +51,59 @@ def normalize_replay(trace, scripts, apps=("a1", "a2")):
     return out
 
 
+def features(beh):
+    """situations of a behaviour that exercise the lock / signal interplay (used to choose what is replayed)"""
+    f = set()
+    insub = set()        # apps between SubCall and SubReg
+    inhand = False       # the loop holds a publish response and has not taken the lock yet
+    unknown = False
+    for st in beh["steps"]:
+        p, a, x = st["p"], st["a"], st.get("x")
+        if a == "SubCall":
+            insub.add(p)
+        elif a == "SubReg":
+            insub.discard(p)
+        if p == "loop":
+            if a in ("PubStart", "PubLock") and insub:
+                f.add("loop-takes-submux-during-subscribe")
+            if a == "PubResult" and isinstance(x, dict) and x.get("o") in ("data", "keepalive"):
+                inhand = True
+            if a == "PubLock":
+                inhand = False
+                if isinstance(x, dict) and x.get("known") is False:
+                    unknown = True
+                    f.add("response-for-unknown-subscription")
+            if a == "Select" and x == "a.publish" and unknown:
+                f.add("publish-after-unknown-subscription")
+        elif p not in ("env", "mon", "init"):
+            if inhand and a in ("FgLock", "SubReg"):
+                f.add("call-takes-submux-while-response-in-hand")
+            if unknown and a in ("FgLock", "SubReg", "SubCall"):
+                f.add("call-after-unknown-subscription")
+    return f
+
+
+def pick_features(rows, n, seed):
+    """seeded choice of n rows that covers every feature at least once where possible"""
+    rnd = random.Random(seed)
+    rows = list(rows)
+    rnd.shuffle(rows)
+    rows.sort(key=lambda b: len(b["steps"]))     # short ones first among equals (stable)
+    chosen, covered = [], set()
+    allf = set().union(*[features(b) for b in rows]) if rows else set()
+    for ft in sorted(allf):
+        if ft in covered:
+            continue
+        for b in rows:
+            if b not in chosen and ft in features(b):
+                chosen.append(b)
+                covered |= features(b)
+                break
+    rest = [b for b in rows if b not in chosen]
+    rnd.shuffle(rest)
+    return (chosen + rest)[:max(n, len(chosen))], sorted(allf)
+
+
 def pick(rows, n, seed, key=None):
     """seeded sample of n rows, keeping one of every distinct key first"""
     rnd = random.Random(seed)
@@ -231,9 +284,15 @@ def run_faults(run, vf, prop):
         rows = [r for r in rows if r["script"]]
     kinds = lambda r: json.dumps(sorted({(i["k"], i["at"], i.get("how", "")) for i in r["items"]})) + str(len(r["script"]))
     n = run.pick(7, 60)
-    # always: one scenario with two re-creations (two restarts) and one with an outage that dies on OpenSecureChannel
-    must = pick([r for r in rows if nrestart(r) >= 2 and r["script"] and not r["closed"]], 1, run.seed) + \
-        pick([r for r in rows if any(i.get("how") == "killopn" and i["at"] == "idle" for i in r["items"]) and not r["closed"]], 1, run.seed)
+    # always: one scenario with two re-creations (two restarts) and one with dial attempts that die on OpenSecureChannel
+    def dial_fails(r):      # an outage during which the monitor dials at least once (the end arrives in the dial loop)
+        return any(i["k"] == "end" and i["at"] == "m.dial" for i in r["items"]) and not r["closed"]
+    kill = pick([r for r in rows if dial_fails(r)], 1, run.seed)
+    for r in kill:          # ... and the connection dies on the OpenSecureChannel request
+        for i in r["items"]:
+            if i["k"] == "outage":
+                i["how"] = "killopn"
+    must = pick([r for r in rows if nrestart(r) >= 2 and r["script"] and not r["closed"]], 1, run.seed) + kill
     sel = must + [r for r in pick(rows, n, run.seed, key=kinds) if r not in must][:max(0, n - len(must))]
     if prop == "C25":
         na = fault_rows(res[4].rows, run.seed, noauto=True)
@@ -294,14 +353,18 @@ def run_faults(run, vf, prop):
     # one TLC run per scenario (all in parallel): a trace the specification cannot explain must not hide the others
     def validate(t):
         cid, text, n = t
-        cfg = "ClientConnLife_noauto.cfg" if byid[cid].get("noauto") else "ClientConnLife.cfg"
-        try:
-            return cid, text, run.tlc("ClientConn", "ClientConnLife", cfg, mode="trace", files={"trace.ndjson": text},
-                                      deque=True, count=True, timeout=run.pick(150, 600), label="trace validation of scenario %s (%d events)" % (cid, n))
-        except vf.Inconclusive as ex:       # time-out of the search: not explained within the budget
-            r = vf.TlcResult()
-            r.out = "STUCK 0 (%s)" % ex
-            return cid, text, r
+        cfgs = ["ClientConnLife_noauto.cfg"] if byid[cid].get("noauto") else ["ClientConnLife.cfg", "ClientConnLife_fixed.cfg"]
+        r = None
+        for cfg in cfgs:    # as-is first; a trace it rejects may be a behaviour of the repaired client (deviation flags off)
+            try:
+                r = run.tlc("ClientConn", "ClientConnLife", cfg, mode="trace", files={"trace.ndjson": text}, deque=True, count=True,
+                            timeout=run.pick(150, 600), label="trace validation of scenario %s (%d events) %s" % (cid, n, cfg))
+            except vf.Inconclusive as ex:       # time-out of the search: not explained within the budget
+                r = vf.TlcResult()
+                r.out = "STUCK 0 (%s)" % ex
+            if r.ok:
+                break
+        return cid, text, r
 
     def ackobs():
         text = "".join(t[1] for t in traces)
